@@ -195,17 +195,7 @@ private:
 
                 if( this->_info._compression == bmp_compression::_bitfield )
                 {
-                    this->_mask.red.mask    = this->_io_dev.read_uint32();
-                    this->_mask.green.mask  = this->_io_dev.read_uint32();
-                    this->_mask.blue.mask   = this->_io_dev.read_uint32();
-
-                    this->_mask.red.width   = detail::count_ones( this->_mask.red.mask   );
-                    this->_mask.green.width = detail::count_ones( this->_mask.green.mask );
-                    this->_mask.blue.width  = detail::count_ones( this->_mask.blue.mask  );
-
-                    this->_mask.red.shift   = detail::trailing_zeros( this->_mask.red.mask   );
-                    this->_mask.green.shift = detail::trailing_zeros( this->_mask.green.mask );
-                    this->_mask.blue.shift  = detail::trailing_zeros( this->_mask.blue.mask  );
+                    // the color masks have been read together with the header
                 }
                 else if( this->_info._compression == bmp_compression::_rgb )
                 {
